@@ -117,6 +117,11 @@ let mg_ops = [| "add_node"; "try_add_node"; "remove_node"; "add_edge"; "update_e
                 "get_node_weight"; "edges"; "edges_directed" |]
 let mg_tags = [| "bool"; "err"; "panic"; "idx"; "unit"; "counts"; "row"; "wrow"; "erefs"; "nw"; "OUT-OF-FUEL"; "nat";
                  "notsorted"; "none"; "pair"; "eidxs"; "nodes"; "out"; "in"; "has"; "limit"; "some" |]
+let gmap_ops = [| "add_node"; "remove_node"; "add_edge"; "remove_edge"; "clear"; "set_edge_weight"; "extend";
+                  "contains_node"; "contains_edge"; "edge_weight"; "neighbors"; "edges_directed"; "to_index"; "into_graph" |]
+let all_tags = [| "bool"; "err"; "panic"; "idx"; "unit"; "counts"; "row"; "wrow"; "erefs"; "nw"; "OUT-OF-FUEL"; "nat";
+                  "notsorted"; "none"; "pair"; "eidxs"; "nodes"; "out"; "in"; "has"; "limit"; "some";
+                  "nb"; "nbo"; "nbi"; "ed"; "edo"; "edi"; "gn"; "ge" |]
 
 let () =
   let prop = Sys.argv.(1) and infile = Sys.argv.(2) and outfile = Sys.argv.(3) in
@@ -124,6 +129,7 @@ let () =
   let oc = open_out outfile in
   (match prop with
    | "C19" -> C19.run_file lines oc
+   | "C03" -> run_generic gmap_ops all_tags GraphMapM.run_case lines oc
    | "C04" -> run_generic mg_ops mg_tags MatrixM.run_case lines oc
    | "C05csr" -> run_generic csr_ops csr_tags CsrM.run_case lines oc
    | "C05list" -> run_generic list_ops list_tags AdjListM.run_case lines oc
